@@ -514,40 +514,28 @@ pub fn run_all(ctx: &mut Ctx, z3: &mut Z3, tier: &str, seed: u64, repo: &Path, s
             if !ctx.want("I-LINE") {
                 continue;
             }
-            // 1. a path the reference says the line matches
+            // 1. a path the reference says the line matches (witness for the
+            //    flag comparison below; the line may match no path within the
+            //    bound -- e.g. a leading blank, which git keeps as part of the
+            //    pattern -- and is then still compared in step 3)
             let mut enc = Enc::new(l);
             wellformed(&mut enc);
             let s = enc.sim(&rnfa, "0", "n", None);
             enc.assert(&Enc::any(&s.m));
             ctx.queries += 1;
-            let w = match z3.check(&enc) {
+            let w: Vec<u8> = match z3.check(&enc) {
                 v @ Verdict::Sat { .. } => wit(&v).unwrap(),
-                Verdict::Unsat => {
-                    // matches no well-formed path within the bound: nothing to compare
-                    continue;
-                }
+                Verdict::Unsat => b"a".to_vec(),
                 Verdict::Unknown(e) => {
                     push(ctx, "I-LINE", &program, "inconclusive", e, None, false);
                     continue;
                 }
             };
-            // 2. the real compiled glob, through a real match on that path
-            let ws = String::from_utf8_lossy(&w).to_string();
-            let m = gi.matched(format!("/r/{}", ws), true);
-            let real_glob = match m.inner() {
+            // 2. the real compiled glob of the line (verif-hooks accessor of
+            //    the ignore crate; one line, so one glob)
+            let real_glob = match gi.verif_globs().first() {
                 Some(g) => g.clone(),
-                None => {
-                    // ripgrep does not match a path the reference matches: ask git
-                    let gv = git.as_ref().and_then(|g| g.verdict(&[line.clone()], ci, &w, true));
-                    let rv = rg_verdict(&gi, &w, true);
-                    let want = ref_verdict(&[(rnfa.clone(), rl.whitelist, rl.only_dir)], &w, true);
-                    let st = match gv {
-                        Some(g) if (g == 1) != (rv == 1) => "failed",
-                        _ => "inconclusive",
-                    };
-                    push(ctx, "I-LINE", &program, st, format!("path (as directory): ripgrep={} git={:?} reference={}", rv, gv, want), Some(w), false);
-                    continue;
-                }
+                None => continue,
             };
             if real_glob.is_whitelist() != rl.whitelist || real_glob.is_only_dir() != rl.only_dir {
                 let gv = git.as_ref().and_then(|g| g.verdict(&[line.clone()], ci, &w, false));
